@@ -901,6 +901,16 @@ func runTamperShard(c *kit.Case, unit int, version, kind string, shard, shards i
 	if shard == 0 {
 		r.Count("tamper_valid_bases", 1)
 		r.Seen("tamper_versions_"+kind, version)
+		for _, sm := range meta.Safes {
+			role := sm.Role
+			if i := strings.IndexByte(role, '['); i >= 0 {
+				role = role[:i]
+			}
+			r.Seen("tamper_contract_accounts", fmt.Sprintf("%s %s entries=%d safe-threshold=%d", version, role, sm.Entries, sm.Threshold))
+			if sm.Entries >= 2 {
+				r.Count("tamper_multisig_accounts", 1)
+			}
+		}
 	}
 
 	judged := 0
